@@ -250,6 +250,8 @@ def run(R, env):
                 how = None
                 if ix[0] == "agg" and ix[1].endswith("RangeFull"):
                     how = "total(full range)"
+                elif ix[0] == "agg" and ix[1].endswith("RangeTo") and (shared.agg_field(ix, "end") or ("none",))[0] == "call" and (shared.agg_field(ix, "end"))[1].endswith("::min") and any(__import__("engine.analysis", fromlist=["len_of"]).len_of(a_) is not None and norm(__import__("engine.analysis", fromlist=["len_of"]).len_of(a_)) == norm(coll) for a_ in shared.agg_field(ix, "end")[2]):
+                    how = "I9(xs[..min(xs.len(), n)] never exceeds the length)"
                 elif ix[0] == "payload" and shared.unwrap_payload(ix)[0] == "call" and shared.unwrap_payload(ix)[1].endswith("Iterator::position") and norm(shared.unwrap_payload(ix)[2][0]) == norm(coll):
                     how = "I8(index found by position() over the same collection)"
                 else:
